@@ -110,10 +110,15 @@ func harnessNames(harnessDir, pkg string) []string {
 }
 
 // build compiles the in-package replay test binary for pkg using -overlay.
-func (r *replayer) build(pkg string) (string, error) {
-	if b, ok := r.bins[pkg]; ok {
+func (r *replayer) build(pkg0 string, sched bool) (string, error) {
+	pkg := pkg0
+	key := pkg0
+	if sched {
+		key += "#sched"
+	}
+	if b, ok := r.bins[key]; ok {
 		if b == "" {
-			return "", fmt.Errorf("%s", r.errs[pkg])
+			return "", fmt.Errorf("%s", r.errs[key])
 		}
 		return b, nil
 	}
@@ -121,7 +126,7 @@ func (r *replayer) build(pkg string) (string, error) {
 	if err != nil {
 		return "", err
 	}
-	dir := filepath.Join(r.workDir, "replay-"+strings.ReplaceAll(pkg, "/", "_"))
+	dir := filepath.Join(r.workDir, "replay-"+strings.ReplaceAll(key, "/", "_"))
 	os.MkdirAll(dir, 0o755)
 	repl := map[string]string{}
 	i := 0
@@ -144,6 +149,18 @@ func (r *replayer) build(pkg string) (string, error) {
 	tp := filepath.Join(dir, "driver_test.go")
 	os.WriteFile(tp, []byte(sb.String()), 0o644)
 	repl[filepath.Join(repoDir, pkg, "zz_verif_driver_test.go")] = tp
+	if sched {
+		// instrumented copies of the current sources (scheduling hook after every channel operation)
+		sr, err := schedOverlay(filepath.Join(dir, "sched"))
+		if err != nil {
+			r.bins[key] = ""
+			r.errs[key] = fmt.Sprintf("instrumentation failed: %v", err)
+			return "", fmt.Errorf("%s", r.errs[key])
+		}
+		for k, v := range sr {
+			repl[k] = v
+		}
+	}
 	ovj, _ := json.Marshal(map[string]interface{}{"Replace": repl})
 	ovp := filepath.Join(dir, "overlay.json")
 	os.WriteFile(ovp, ovj, 0o644)
@@ -153,11 +170,11 @@ func (r *replayer) build(pkg string) (string, error) {
 	cmd.Env = goEnv()
 	out, err := cmd.CombinedOutput()
 	if err != nil {
-		r.bins[pkg] = ""
-		r.errs[pkg] = fmt.Sprintf("replay build failed: %v\n%s", err, out)
-		return "", fmt.Errorf("%s", r.errs[pkg])
+		r.bins[key] = ""
+		r.errs[key] = fmt.Sprintf("replay build failed: %v\n%s", err, out)
+		return "", fmt.Errorf("%s", r.errs[key])
 	}
-	r.bins[pkg] = bin
+	r.bins[key] = bin
 	return bin, nil
 }
 
@@ -167,8 +184,19 @@ type replayOutcome struct {
 	TimedOut bool
 }
 
+// needsSched: witnesses of stall-exploration harnesses are replayed on the
+// instrumented build.
+func needsSched(wit []WitnessEntry) bool {
+	for _, e := range wit {
+		if e.Name == "stall-after" {
+			return true
+		}
+	}
+	return false
+}
+
 func (r *replayer) run(pkg, harness string, wit []WitnessEntry, witPath string, tmo time.Duration) (*replayOutcome, error) {
-	bin, err := r.build(pkg)
+	bin, err := r.build(pkg, needsSched(wit))
 	if err != nil {
 		return nil, err
 	}
@@ -201,11 +229,48 @@ func reproduced(v *Violation, oc *replayOutcome) bool {
 		return strings.Contains(oc.Output, "VASSERT-FAIL "+v.Label)
 	case "panic":
 		out := strings.ReplaceAll(oc.Output, "panic: test timed out", "")
-		return strings.Contains(out, "panic:") || strings.Contains(out, "fatal error:")
+		if !strings.Contains(out, "panic:") && !strings.Contains(out, "fatal error:") {
+			return false
+		}
+		// the same panic: the function at the top of the engine's stack appears
+		// at the top of the panicking goroutine's native stack (line numbers may
+		// differ in instrumented builds)
+		fn := panicFunc(v.Where)
+		if fn == "" {
+			return true
+		}
+		i := strings.Index(out, "[running]:")
+		if i < 0 {
+			return true
+		}
+		lines := strings.Split(out[i:], "\n")
+		for k := 1; k < len(lines) && k <= 1; k++ {
+			if strings.Contains(lines[k], "."+fn+"(") || strings.Contains(lines[k], "."+fn+".func") {
+				return true
+			}
+		}
+		return false
 	case "deadlock":
 		return oc.TimedOut || strings.Contains(oc.Output, "all goroutines are asleep") || strings.Contains(oc.Output, "test timed out")
 	}
 	return false
+}
+
+// panicFunc extracts the bare function name of the first frame of an engine
+// stack description such as "(*pkg/path.T).method:123 < ...".
+func panicFunc(where string) string {
+	f := strings.SplitN(where, " < ", 2)[0]
+	if i := strings.LastIndex(f, ":"); i > 0 {
+		f = f[:i]
+	}
+	if i := strings.LastIndex(f, "."); i >= 0 {
+		f = f[i+1:]
+	}
+	f = strings.TrimSuffix(f, ")")
+	if j := strings.Index(f, "$"); j > 0 {
+		f = f[:j]
+	}
+	return f
 }
 
 // ---- evidence ----
@@ -422,6 +487,30 @@ func cmdCheck(args []string) {
 				violLines = append(violLines, fmt.Sprintf("VIOLATION property=%s replay=%s", prop, dir))
 				nViol++
 				continue
+			}
+			// the engine counts synchronisation operations, the instrumented
+			// build counts instrumented statements: for a stall witness the
+			// native stall point is searched in 0..24
+			if needsSched(g.cands[0].Witness) {
+				base := g.cands[0]
+				var more []*Violation
+				for kk := 0; kk <= 24; kk++ {
+					w := append([]WitnessEntry{}, base.Witness...)
+					same := false
+					for i := range w {
+						if w[i].Name == "stall-after" {
+							same = w[i].Val == fmt.Sprint(kk)
+							w[i].Val = fmt.Sprint(kk)
+						}
+					}
+					if same {
+						continue
+					}
+					c := *base
+					c.Witness = w
+					more = append(more, &c)
+				}
+				g.cands = append(g.cands[:1], more...)
 			}
 			var oc *replayOutcome
 			var err error
